@@ -134,15 +134,13 @@ theorem negotiate_tr (O : Oracle) (c : Conf) (e : Entry) (forced : Bool) (loop :
 /-! ### the state only grows -/
 
 theorem writeHdr_st (O : Oracle) (c : Conf) (p : Pc) : (writeHdr O c p).st = c.st := by
-  unfold writeHdr; split <;> rfl
+  unfold writeHdr Conf.block; (repeat' split) <;> rfl
 
 theorem readHdr_st (O : Oracle) (c : Conf) (p : Pc) : (readHdr O c p).st = c.st := by
-  unfold readHdr
-  split
-  · rfl
-  · split
-    · rfl
-    · split <;> rfl
+  unfold readHdr Conf.block; (repeat' split) <;> rfl
+
+theorem unblock_st (O : Oracle) (c : Conf) (wr : Bool) (ev : Ev) : (unblock O c wr ev).st = c.st := by
+  unfold unblock; (repeat' split) <;> rfl
 
 /-- case analysis of one step: the control point, then every branch -/
 macro "step_cases" : tactic =>
@@ -194,7 +192,7 @@ theorem step_mono (C : List Feature) (O : Oracle) (c : Conf) : sub c.st (step C 
   step_cases
   all_goals first
     | exact sub_refl _
-    | (simp only [writeHdr_st, readHdr_st]; exact sub_refl _)
+    | (simp only [writeHdr_st, readHdr_st, unblock_st, Conf.block]; exact sub_refl _)
     | exact sub_or_left _ _
     | (rw [negotiate_st_eq]; (try dsimp only); split <;> first | exact sub_refl _ | exact sub_or_left _ _)
 
@@ -228,7 +226,7 @@ structure InvA (C : List Feature) (c : Conf) : Prop where
 the resulting configuration is a structure literal in every goal -/
 macro "step_all" : tactic =>
   `(tactic| (unfold step; split <;>
-      (try simp only [writeHdr, readHdr, negotiate, Conf.log, Conf.goto]) <;>
+      (try simp only [writeHdr, readHdr, negotiate, Conf.log, Conf.goto, Conf.block, unblock]) <;>
       (repeat' split) <;> (try dsimp only)))
 
 theorem invA_step (C : List Feature) (O : Oracle) (c : Conf) (h : InvA C c) : InvA C (step C O c) := by
